@@ -352,6 +352,7 @@ BTree_split(BTree *self, int index, BTree *next)
         index = self->len / 2;
 
     next_size = self->len - index;
+    VERIF_PROBE(19);
     ASSERT(index > 0, "split creates empty tree", -1);
     ASSERT(next_size > 0, "split creates empty tree", -1);
 
@@ -400,6 +401,7 @@ BTree_split_root(BTree *self, int noval)
     BTreeItem *d;
 
     /* Create a child BTree, and a new data vector for self. */
+    VERIF_PROBE(18);
     child = BTREE(PyObject_CallObject(OBJECT(Py_TYPE(self)), NULL));
     if (!child)
         return -1;
@@ -832,6 +834,7 @@ _BTree_set(BTree *self, PyObject *keyarg, PyObject *value,
         {
             Bucket *bucket;
 
+            VERIF_PROBE(17);
             if (SameType_Check(self, d->child))
             {
                 UNLESS(PER_USE(d->child))
@@ -865,6 +868,7 @@ _BTree_set(BTree *self, PyObject *keyarg, PyObject *value,
             * that it can't be the firstbucket of any node above us either).
             * Tell "the tree to the left" to do the unlinking.
             */
+            VERIF_PROBE(13);
             if (BTree_deleteNextBucket(BTREE(d[-1].child)) < 0)
                 goto Error;
             status = 1;     /* we solved the child's firstbucket problem */
@@ -873,6 +877,7 @@ _BTree_set(BTree *self, PyObject *keyarg, PyObject *value,
         {
             /* This was our firstbucket.  Update to new firstbucket value. */
             Bucket *nextbucket;
+            VERIF_PROBE(14);
             UNLESS(PER_USE(d->child))
                 goto Error;
             nextbucket = BTREE(d->child)->firstbucket;
@@ -910,6 +915,7 @@ _BTree_set(BTree *self, PyObject *keyarg, PyObject *value,
             * bucket to adjust its reference to it.  It can't be anyone
             * else's first bucket either, so the caller needn't do anything.
             */
+            VERIF_PROBE(15);
             if (Bucket_deleteNextBucket(BUCKET(d[-1].child)) < 0)
                 goto Error;
             /* status should be 1, and already is:  if it were 2, the
@@ -921,6 +927,7 @@ _BTree_set(BTree *self, PyObject *keyarg, PyObject *value,
         {
             Bucket *nextbucket;
             /* It's our first bucket.  We can't unlink it directly. */
+            VERIF_PROBE(16);
             /* 'changed' will be set true by the deletion code following. */
             UNLESS(PER_USE(d->child))
                 goto Error;
@@ -975,6 +982,7 @@ Error:
     assert(PyErr_Occurred());
     if (self_was_empty)
     {
+        VERIF_PROBE(12);
         /* BTree_grow may have left the BTree in an invalid state.  Make
         * sure the tree is a legitimate empty tree.
         */
@@ -1535,6 +1543,7 @@ BTree_findRangeEnd(BTree *self, PyObject *keyarg, int low, int exclude_equal,
         UNLESS(PER_USE(pbucket)) goto Done;
         next = pbucket->next;
         if (next) {
+        VERIF_PROBE(0);
         result = 1;
         Py_INCREF(next);
         *bucket = next;
@@ -1549,6 +1558,7 @@ BTree_findRangeEnd(BTree *self, PyObject *keyarg, int low, int exclude_equal,
     {
         if (deepest_smaller_is_btree)
         {
+            VERIF_PROBE(1);
             UNLESS(PER_USE(deepest_smaller))
                 goto Done;
             /* We own the reference this returns. */
@@ -1559,6 +1569,7 @@ BTree_findRangeEnd(BTree *self, PyObject *keyarg, int low, int exclude_equal,
         }
         else
         {
+            VERIF_PROBE(2);
             pbucket = BUCKET(deepest_smaller);
             Py_INCREF(pbucket);
         }
@@ -1734,6 +1745,7 @@ BTree_rangeSearch(BTree *self, PyObject *args, PyObject *kw, char type)
             else
             {    /* move to first item in next bucket */
                 Bucket *next;
+                VERIF_PROBE(3);
                 UNLESS (PER_USE(lowbucket))
                     goto err;
                 next = lowbucket->next;
@@ -1778,6 +1790,7 @@ BTree_rangeSearch(BTree *self, PyObject *args, PyObject *kw, char type)
             else /* move to last item of preceding bucket */
             {
                 int status;
+                VERIF_PROBE(4);
                 assert(highbucket != self->firstbucket);
                 Py_DECREF(highbucket);
                 status = PreviousBucket(&highbucket, self->firstbucket);
@@ -1818,6 +1831,7 @@ BTree_rangeSearch(BTree *self, PyObject *args, PyObject *kw, char type)
         int cmp;
 
         /* Have to check the hard way:  see how the endpoints compare. */
+        VERIF_PROBE(5);
         UNLESS (PER_USE(lowbucket))
             goto err_and_decref_buckets;
         COPY_KEY(first, lowbucket->keys[lowoffset]);
